@@ -49,6 +49,13 @@ VOC = ["alfa", "bravo", "charlie", "delta", "echo", "foxtrot", "golf", "hotel", 
        "xray", "yankee", "zulu"]
 ZW = [1.0 / (i + 1) for i in range(len(VOC))]
 TAGS = ["red", "green", "blue", "cyan", "black"]
+# big cases (every BIG_EVERY-th case index): per-document value sizes = case mean x one of these factors
+BIG_EVERY = 5
+BIG_FACTORS = [0.02, 0.1, 0.5, 1, 1, 2, 3]
+MAX_KEY = 6000              # longest sortable key (one ID term)
+KEY_ALPHA = "abcdefghijklmnopqrstuvwxyz0123456789"
+BLOB_ALPHA = "abcdefghijklmnopqrstuvwxyzABCDEFGHIJKLMNOPQRSTUVWXYZ0123456789+/ .,;:-_()[]{}<>!?*#%&=@^~|$"   # deflates to ~0.8
+SPILL_AT = 32 * 1024        # the per-document column streams of a segment are buffered in memory up to this size
 
 
 def nfail(ctx):
@@ -81,6 +88,7 @@ def gen_opts(rng):
         "fl_sortable": rng.random() < 0.5,
         "body_spelling": rng.random() < 0.5,
         "pop": "A" if rng.random() < 0.7 else "B",
+        "big": False,
     }
 
 
@@ -103,12 +111,16 @@ def make_schema(opts, without=None):
         ng=fields.NGRAMWORDS(minsize=2, maxsize=3),
     )
     sch.add("*_dyn", fields.KEYWORD(stored=True), glob=True)
+    if opts.get("big"):
+        # big cases: a unique sortable key of varying length (VarBytes column) and a stored blob of varying size
+        sch.add("skey", fields.ID(sortable=True))
+        sch.add("blob", fields.STORED())
     if without:
         sch.remove(without)
     return sch
 
 
-def gen_doc(rng, key, kind, gid, opts):
+def gen_doc(rng, key, kind, gid, opts, big=None):
     maxlen = 10 if opts["pop"] == "A" else rng.choice([10, 14, 40, 130])
     d = {"id": key, "kind": kind, "grp": gid}
     if rng.random() < 0.9:
@@ -138,11 +150,20 @@ def gen_doc(rng, key, kind, gid, opts):
         d[rng.choice(["a_dyn", "b_dyn"])] = " ".join(rng.sample(TAGS, 2))
     if rng.random() < 0.05:
         d["_boost"] = 1.5
+    if big is not None:
+        # drawn from the case's separate "big" stream: the rest of the document does not depend on it
+        brng, mean = big
+        n = int(mean * brng.choice(BIG_FACTORS))
+        d["skey"] = "%s-%s" % ("".join(brng.choices(KEY_ALPHA, k=min(n, MAX_KEY))), key)     # unique among live documents
+        if brng.random() < 0.85:
+            n = int(mean * brng.choice(BIG_FACTORS))
+            d["blob"] = "".join(brng.choices(BLOB_ALPHA, k=n))
     return d
 
 
-def gen_program(rng, ctx):
-    """Returns (opts, ops, remove_field). ops are document-level operations over groups."""
+def gen_program(rng, ctx, brng=None):
+    """Returns (opts, ops, remove_field). ops are document-level operations over groups.
+    brng: the separate random stream of a big case (None otherwise)."""
     opts = gen_opts(rng)
     ops = []
     groups = {}      # gid -> list of keys (live)
@@ -155,6 +176,14 @@ def gen_program(rng, ctx):
         return "d%03d" % nkey[0]
 
     ndocs_target = rng.choice([5, 8, 12, 20, 30, 40])
+    big = None
+    if brng is not None:
+        # big case: enough documents and value volume that the per-document column streams ("_stored", the VarBytes
+        # sort column of skey) of a segment holding most of the documents pass the 32 KB in-memory buffer several times,
+        # with value sizes spread over two orders of magnitude, while a segment of one small commit stays below it
+        opts["big"] = True
+        ndocs_target = brng.choice([24, 32, 40])
+        big = (brng, brng.choice([100000, 140000, 200000]) // ndocs_target)
     deletions = rng.random() < 0.6
     if deletions and opts["pop"] == "A":
         # population A avoids the constructs behind the listed findings (separate spelling word list + deletions)
@@ -177,12 +206,12 @@ def gen_program(rng, ctx):
         elif deletions and r < 0.3 and singles:
             gid = rng.choice(singles)
             key = groups[gid][0]
-            ops.append(("update", gid, [gen_doc(rng, key, "parent", gid, opts)]))
+            ops.append(("update", gid, [gen_doc(rng, key, "parent", gid, opts, big)]))
         else:
             ngid[0] += 1
             gid = "g%03d" % ngid[0]
             size = rng.choice([1, 1, 2, 3, 4])
-            docs = [gen_doc(rng, newkey(), "parent" if i == 0 else "child", gid, opts) for i in range(size)]
+            docs = [gen_doc(rng, newkey(), "parent" if i == 0 else "child", gid, opts, big) for i in range(size)]
             if size > 1:
                 docs[0]["kids"] = "y"
             ops.append(("group", gid, docs))
@@ -337,6 +366,51 @@ def model_lengths(doc):
     return out
 
 
+def model_stored(doc, remove=None):
+    """The stored dict of a document according to the model."""
+    return dict((k, v) for k, v in doc.items()
+                if not (k.startswith("_") or k in ("body", "fl", "ng", "kids", "skey") or k == remove))
+
+
+def stream_sizes(doc):
+    """(bytes of the sort key, estimated bytes of the deflated pickled stored dict) one document appends to the two
+    variable-length per-document column streams of the segment it is written to. Reach counters only."""
+    import pickle
+    import zlib
+    return len(doc.get("skey", "").encode("utf8")), len(zlib.compress(pickle.dumps(model_stored(doc), 2), 3))
+
+
+def spill_profile(sizes):
+    """Reach model of one column stream of a segment: values are appended to an in-memory buffer that is flushed
+    ("spilled") together with the value that makes it reach SPILL_AT. Returns (number of spills, whether some spill
+    found the buffer shorter than it was at an earlier spill)."""
+    buf, fills = 0, []
+    for n in sizes:
+        if buf + n >= SPILL_AT:
+            fills.append(buf)
+            buf = 0
+        else:
+            buf += n
+    shorter = any(b < max(fills[:i]) for i, b in enumerate(fills) if i)
+    return len(fills), shorter
+
+
+def count_spills(reached, cache, docs_in_order):
+    """reached: set of reach facts of one layout (history or reference), extended with what one written segment reaches.
+    cache: per-case memo of stream_sizes by object identity of the document dict."""
+    sizes = []
+    for d in docs_in_order:
+        if id(d) not in cache:
+            cache[id(d)] = stream_sizes(d)
+        sizes.append(cache[id(d)])
+    for col, j in (("sortcol", 0), ("stored", 1)):
+        n, shorter = spill_profile([sz[j] for sz in sizes])
+        if n >= 2:
+            reached.add("%s_spilled_twice" % col)
+        if shorter:
+            reached.add("%s_shorter_refill" % col)
+
+
 def run_history(ctx, st, schema, commits, info):
     """Executes the commits on a fresh index in `st`. info collects layout facts."""
     from whoosh.codec.whoosh3 import W3Codec
@@ -346,6 +420,8 @@ def run_history(ctx, st, schema, commits, info):
     prev = {}
     info["rewritten"] = set()
     anchors, dead, version, members = {}, set(), {}, {}
+    curdoc = {}      # key -> current version of the document (big cases: which values a written segment receives)
+    info["reached"] = set()
 
     def uid(k):
         return "%s#%d" % (k, version.get(k, 0))
@@ -398,6 +474,14 @@ def run_history(ctx, st, schema, commits, info):
             if op[0] in ("group", "update"):
                 fresh.update(d["id"] for d in op[2])
         now, first = seg_map(ix)
+        if info.get("big") is not None:
+            # every segment this commit wrote (new documents and/or merged old ones) received the values of the
+            # documents live in it now, in doc-number order (seg_map lists each leaf in that order)
+            for op in c["ops"]:
+                if op[0] in ("group", "update"):
+                    curdoc.update((d["id"], d) for d in op[2])
+            for sid in after_ids - before_ids:
+                count_spills(info["reached"], info["big"], [curdoc[k] for k, s_ in now.items() if s_ == sid])
         for k, sid in now.items():
             if k in fresh:
                 # the merging MpWriter copies even new documents through write_per_doc() from an on-disk sub-segment
@@ -490,7 +574,7 @@ def make_probes(rng, remove=None):
 def observe(ctx, ix, probes, removed=None):
     """Returns a dict with the canonical dump, stats, probe results, group layout."""
     from vf import dump
-    from whoosh import scoring
+    from whoosh import scoring, query
     out = {}
     with ix.searcher() as s:
         r = s.reader()
@@ -532,6 +616,10 @@ def observe(ctx, ix, probes, removed=None):
             st_["terms"] = dict((t, v) for t, v in st_["terms"].items() if not t.startswith("spell_"))
             out["stats"] = st_
         out["indexed_fields"] = sorted(r.indexed_field_names())
+        if "skey" in r.schema.names():
+            # big cases: the sort key is unique among live documents, so the sorted order is fully defined by the column
+            out["sorted_skey"] = [keys[h.docnum] for h in s.search(query.Every(), sortedby="skey", limit=None)]
+            out["sorted_skey_rev_top"] = [keys[h.docnum] for h in s.search(query.Every(), sortedby="skey", reverse=True, limit=3)]
         if removed:
             phys = {"stored": 0, "column": 0}
             for lr, _ in r.leaf_readers():
@@ -576,12 +664,7 @@ def model_expectations(groups, probewords, remove):
     for gid, docs in groups:
         members[gid] = [d["id"] for d in docs]
         for d in docs:
-            sd = {}
-            for k, v in d.items():
-                if k.startswith("_") or k in ("body", "fl", "ng", "kids") or k == remove:
-                    continue
-                sd[k] = v
-            stored[d["id"]] = sd
+            stored[d["id"]] = model_stored(d, remove)
         parent = docs[0] if docs and docs[0]["kind"] == "parent" else None
         if parent is None:
             continue
@@ -618,7 +701,8 @@ def close_scores(a, b):
 def one_case(ctx, rng, idx):
     from vf import dump
     from whoosh.filedb.filestore import RamStorage, FileStorage
-    opts, ops, remove = gen_program(rng, ctx)
+    big = idx % BIG_EVERY == 0
+    opts, ops, remove = gen_program(rng, ctx, ctx.rng(idx, "big") if big else None)
     groups = final_groups(ops)
     if not groups:
         ctx.count("c06.cases.everything_deleted")
@@ -626,6 +710,11 @@ def one_case(ctx, rng, idx):
     probes, pw = make_probes(rng, remove)
     schema_final = make_schema(opts, without=remove)
     exp_stored, exp_members, exp_nparent, exp_nchildren = model_expectations(groups, pw, remove)
+    exp_sorted = None
+    sizes_cache = {}
+    if big:
+        exp_sorted = [d["id"] for d in sorted((d for _, docs in groups for d in docs), key=lambda d: d["skey"])]
+        ctx.count("c06.big.cases")
     has_deletes = any(op[0] != "group" for op in ops)
     base_w = {"options": opts, "remove_field": remove, "ndocs_final": len(exp_stored),
               "program": [(op[0], op[1] if op[0] != "group" else [d["id"] for d in op[2]]) for op in ops][:40]}
@@ -656,11 +745,17 @@ def one_case(ctx, rng, idx):
                         w.add_document(**strip(d, remove))
             w.commit(optimize=True)
             ref.update(observe(ctx, ix, probes))
+            if big:
+                reached = set()
+                count_spills(reached, sizes_cache, [d for _, docs in groups for d in docs])
+                ctx.count("c06.big.layouts")
+                for fact in reached:
+                    ctx.count("c06.big.%s" % fact)
         ok, _ = ctx.guard("c06.reference", dict(base_w, history="reference"), build_ref)
         if not ok:
             return ("ref-failed",), False, base_w
         # the reference itself against the model
-        if not _check_model(ctx, base_w, "reference", ref, exp_stored, exp_members, exp_nparent, exp_nchildren):
+        if not _check_model(ctx, base_w, "reference", ref, exp_stored, exp_members, exp_nparent, exp_nchildren, exp_sorted):
             return ("ref-vs-model",), False, base_w
         # ---- alternative histories
         nh = ctx.pick(5, 8)
@@ -673,7 +768,7 @@ def one_case(ctx, rng, idx):
                 # other front-ends only without a separate spelling word list (its doc-0 model assumes one new segment)
                 fes = ("writer", "buffered") if kind == "ram" else ("writer", "buffered", "mp", "mp-multi")
             commits = plan_history(rng, ops, remove, style, fes)
-            info = {"merges": 0, "merges_with_deletions": 0}
+            info = {"merges": 0, "merges_with_deletions": 0, "big": sizes_cache if big else None}
             w = dict(base_w, history=[{"merge": c["merge"], "blocklimit": c["blocklimit"], "compound": c["compound"], "frontend": c.get("frontend", "writer"),
                                        "ops": [(op[0], op[1] if op[0] != "group" else [d["id"] for d in op[2]]) for op in c["ops"]]}
                                       for c in commits][:30], storage=kind, style=style)
@@ -686,6 +781,10 @@ def one_case(ctx, rng, idx):
                 ix.close()
             ctx.count("c06.histories")
             ok, _ = ctx.guard("c06.history", w, body)
+            if big:
+                ctx.count("c06.big.layouts")
+                for fact in info.get("reached", ()):
+                    ctx.count("c06.big.%s" % fact)
             if not ok:
                 break
             w["final_segments"] = obs["segments"]
@@ -718,7 +817,7 @@ def one_case(ctx, rng, idx):
                          "search(limit=2) returned doc numbers %r, search(limit=None) %r" % (lim, alld))
             # (2) model
             if nfail(ctx) == nf0:
-                _check_model(ctx, w, "history", obs, exp_stored, exp_members, exp_nparent, exp_nchildren)
+                _check_model(ctx, w, "history", obs, exp_stored, exp_members, exp_nparent, exp_nchildren, exp_sorted)
             # (3) result sets of the probe queries (always), scores + statistics (no physically deleted docs)
             if nfail(ctx) == nf0:
                 for key, refres in ref["results"].items():
@@ -810,7 +909,12 @@ def _totals_explained(stats, groups, rewritten, remove):
     return True
 
 
-def _check_model(ctx, w, which, obs, exp_stored, exp_members, exp_nparent, exp_nchildren):
+def _short(x, n=400):
+    r = repr(x)
+    return r if len(r) <= n else r[:n] + "...(%d chars)" % len(r)
+
+
+def _check_model(ctx, w, which, obs, exp_stored, exp_members, exp_nparent, exp_nchildren, exp_sorted=None):
     nf0 = nfail(ctx)
     ctx.count("c06.model.checks")
     stored = obs["dump"]["stored"]
@@ -819,7 +923,9 @@ def _check_model(ctx, w, which, obs, exp_stored, exp_members, exp_nparent, exp_n
         return False
     for k in stored:
         if stored[k] != exp_stored[k]:
-            ctx.fail("c06.model", "%s:stored" % which, dict(w, doc=k), "got %r expected %r" % (stored[k], exp_stored[k]))
+            bad = sorted(f for f in set(stored[k]) | set(exp_stored[k]) if stored[k].get(f) != exp_stored[k].get(f))
+            ctx.fail("c06.model", "%s:stored" % which, dict(w, doc=k), "fields %s: got %s expected %s" % (
+                bad, _short(dict((f, stored[k].get(f)) for f in bad)), _short(dict((f, exp_stored[k].get(f)) for f in bad))))
             return False
     # groups: members in order, adjacent
     for gid, members in exp_members.items():
@@ -831,6 +937,17 @@ def _check_model(ctx, w, which, obs, exp_stored, exp_members, exp_nparent, exp_n
     if obs["group_gaps"]:
         ctx.fail("c06.groups", "%s:group-split" % which, w, "live foreign documents between members: %s" % (obs["group_gaps"][:3],))
         return False
+    if exp_sorted is not None:
+        # the order of a search sorted by the unique sort key is defined by the documents alone
+        ctx.count("c06.sorted.checks")
+        if obs["sorted_skey"] != exp_sorted:
+            pos = next((i for i, (a, b) in enumerate(zip(obs["sorted_skey"], exp_sorted)) if a != b), min(len(exp_sorted), len(obs["sorted_skey"])))
+            ctx.fail("c06.sorted", "%s:sortedby-skey" % which, w, "search(Every, sortedby=skey) differs from the model from position %d: got %s expected %s" % (
+                pos, obs["sorted_skey"][pos:pos + 6], exp_sorted[pos:pos + 6]))
+            return False
+        if obs["sorted_skey_rev_top"] != exp_sorted[::-1][:3]:
+            ctx.fail("c06.sorted", "%s:sortedby-skey-reverse-top3" % which, w, "got %s expected %s" % (obs["sorted_skey_rev_top"], exp_sorted[::-1][:3]))
+            return False
     for wname in ("bm25f",):
         got = set(obs["results"][(wname, "nested-parent")])
         ctx.count("c06.nested.checks")
